@@ -89,7 +89,7 @@ def main(tier):
             cid = "%d-%s" % (i, tag)
             f = {"main.asm": src}
             f.update(fs)
-            cases.append({"id": cid, "files": f, "pc": 0x2000, "want": ["segments"], "max_passes": 60})
+            cases.append({"id": cid, "files": f, "pc": 0x2000, "want": ["segments", "symbols", "vice"] if tag == "p" else ["segments"], "max_passes": 60})
             meta[cid] = src
     obs, p = V.run_harness("asmdrive", cases, "C07-drive")
     if len(obs) != len(cases):
@@ -109,6 +109,31 @@ def main(tier):
         raise V.ToolError("too few generated programs build (%d of %d)" % (nok, n))
     verdicts, st = V.judge(os.path.join(SPEC, "ExpandTrace.tla"), jrecs, cfg=os.path.join(SPEC, "ExpandTrace.cfg"), env={"MODE": "judge"}, tag="C07-judge", batch=4000)
     rep.add_stats(st)
+    # the programs themselves are also judged as fixed points of the reference semantics (binds Asm.tla's treatment of
+    # loops, conditionals, macros and imports to the code; a mismatch here is drift of the model, C02 owns the property)
+    sys.path.insert(0, os.path.join(os.path.dirname(os.path.abspath(__file__)), "..", "C02"))
+    import importlib.util
+    spec2 = importlib.util.spec_from_file_location("c02check", os.path.join(os.path.dirname(os.path.abspath(__file__)), "..", "C02", "check.py"))
+    c02 = importlib.util.module_from_spec(spec2)
+    spec2.loader.exec_module(c02)
+    frecs = []
+    for i in range(1, n + 1):
+        prog, files = progs[i]
+        o = omap["%d-p" % i]
+        if not o["ok"]:
+            continue
+        rec = c02.observe_record(i, prog, o, 0x2000)
+        if rec is None:
+            continue
+        rec["files"] = {fn: G.tla_ready(p) for fn, p in files.items()}
+        rec["files"]["_"] = []
+        frecs.append(V.clip_tree(rec))
+    frow, fst = V.judge(os.path.join(SPEC, "AsmTrace.tla"), frecs, cfg=os.path.join(SPEC, "AsmTrace.cfg"), tag="C07-fixpoint", batch=1500, timeout=3000)
+    rep.add_stats(fst)
+    rep.cov["programs_judged_as_fixed_points"] = len(frecs)
+    rep.cov["reference_semantics_drift"] = len(frow)
+    for v in frow:
+        rep.verdict(dict(v, verdict="drift", dev="RefOnConstructs"), {})
     rep.cov["traces_validated_against_impl"] = 3 * n
     rep.cov["evaluations"] = len(cases)
     rep.cov["distinct_nontrivial"] = len({meta["%d-p" % i] for i in range(1, n + 1) if jrecs[i - 1]["p"]["ok"] and meta["%d-p" % i] != meta["%d-e" % i]})
